@@ -551,6 +551,76 @@ func (c18) decoratedRootOfRemote(c *fw.Case) {
 		}
 		c.Nontrivial("decorated-remote|" + where)
 	}
+	c18{}.decoratedIdentifiedRemote(c)
+}
+
+// decoratedIdentifiedRemote: the Loader's document (no $schema: it is read like the document that refers to it) is entered
+// through an $anchor, or holds an $id beside a $ref (2020-12: the $id is the base of that $ref). Non-asserting content added
+// to it - unreferenced definitions under either spelling, unknown keywords, annotations - changes neither whether Resolve
+// succeeds nor a verdict.
+func (c18) decoratedIdentifiedRemote(c *fw.Case) {
+	r := c.R
+	t1, t2 := gen.Pick(r, gen.TypeNames), gen.Pick(r, gen.TypeNames)
+	var root string
+	docs := map[string]string{}
+	var remote map[string]any
+	switch r.IntN(3) {
+	case 0:
+		remote = map[string]any{"properties": map[string]any{"n": map[string]any{"$anchor": "name", "type": t1}}}
+		root = `{"properties":{"p":{"$ref":"http://h/u.json#name"}}}`
+	case 1:
+		remote = map[string]any{"properties": map[string]any{"p": map[string]any{"$id": "http://h/sub/", "$ref": "t.json"}}}
+		root = `{"$ref":"http://h/u.json"}`
+		docs["http://h/sub/t.json"] = `{"type":"` + t1 + `"}`
+		docs["http://h/t.json"] = `{"type":"` + t2 + `"}`
+	default:
+		remote = map[string]any{"properties": map[string]any{"p": map[string]any{"$ref": "#/properties/q", "type": t2}, "q": map[string]any{"type": t1}}}
+		root = `{"$ref":"http://h/u.json"}` // a sibling of $ref counts (2020-12)
+	}
+	var verdicts [2][]bool
+	var texts [2]string
+	where := gen.Pick(r, []string{"definitions", "definitions", "$defs", "x-unknown", "$comment", "examples"})
+	for k := 0; k < 2; k++ {
+		doc := gen.Clone(remote).(map[string]any)
+		if k == 1 {
+			switch where {
+			case "$comment":
+				doc[where] = "c"
+			case "examples":
+				doc[where] = []any{map[string]any{"$anchor": "name", "$id": "http://h/sub/"}}
+			default:
+				doc[where] = map[string]any{"unused": map[string]any{"type": "null"}}
+			}
+		}
+		texts[k] = gen.Text(doc)
+		all := map[string]string{"http://h/u.json": texts[k]}
+		for u, d := range docs {
+			all[u] = d
+		}
+		ld := &mapLoader{docs: all}
+		rs, err, ok := compileDoc(c, root, &jsonschema.ResolveOptions{BaseURI: "http://h/root.json", Loader: ld.load})
+		if !ok {
+			return
+		}
+		if err != nil {
+			c.Violation("Resolve fails on a root whose Loader document is entered through an identifier: "+err.Error(), map[string]any{"schema": json.RawMessage(root), "loader_document": json.RawMessage(texts[k]), "decorated": k == 1})
+			return
+		}
+		for _, inst := range []string{`{"p":"x"}`, `{"p":1}`, `{"p":null}`, `{"p":[]}`, `{"p":{}}`, `{"p":true}`, `{"p":1.5}`, `{}`} {
+			v, ok := validate(c, rs, root, gen.Canonical(inst), inst)
+			if !ok {
+				return
+			}
+			c.Eval(1)
+			verdicts[k] = append(verdicts[k], v)
+		}
+	}
+	if fmt.Sprint(verdicts[0]) != fmt.Sprint(verdicts[1]) {
+		c.Violation(fmt.Sprintf("non-asserting content (%s) in the Loader's document changed verdicts: %v without, %v with", where, verdicts[0], verdicts[1]),
+			map[string]any{"schema": json.RawMessage(root), "loader_document": json.RawMessage(texts[0]), "decorated_loader_document": json.RawMessage(texts[1])})
+		return
+	}
+	c.Nontrivial("decorated-identified-remote|" + where)
 }
 
 // contentSchemaIdentifiers: contentSchema, contentMediaType and contentEncoding are annotations. A contentSchema is a
